@@ -141,26 +141,44 @@ func runC16(p *P, r *R) {
 	for word, chk := range checkerOf {
 		fn := p.fname(chk)
 		undo := storesOther(word)
-		for _, ret := range returnsOf(chk) {
-			if chk.Recover != nil && ret.Block() == chk.Recover {
-				continue
+		// every exit is reached either past a store of another state (directly or through a callee), or over a branch
+		// edge on which the state is known to differ already. The search is branch-consistent (local booleans such as
+		// `still := l.state == hotRestartState` are followed) and runs per loop iteration: it starts at the function
+		// entry and after each select, and ends when the next select is reached.
+		isState := func(v ssa.Value) bool { return isLoadOf(v, word) }
+		isHot := func(v ssa.Value) bool { c, okc := constInt(v); return okc && c == hotRestartStateVal }
+		starts := []Point{{chk.Blocks[0], -1}}
+		allInstrs(chk, func(in ssa.Instruction) {
+			if sel, ok := in.(*ssa.Select); ok && sel.Blocking {
+				starts = append(starts, pointOf(in))
 			}
-			ok := false
-			// (a) a store of another state (directly or through a callee) dominates the return within the same arm
-			allInstrs(chk, func(in ssa.Instruction) {
-				if p.evMust(in, undo, 2) && instrDominates(in, ret) {
-					ok = true
-				}
+		})
+		for si, st := range starts {
+			st := st
+			okp, res := p.findBadPath(chk, []Point{st}, pathOpts{
+				Discharge: func(in ssa.Instruction) bool {
+					if sel, ok := in.(*ssa.Select); ok && sel.Blocking {
+						return true // next iteration: judged from its own start
+					}
+					return p.evMust(in, undo, 2)
+				},
+				Bad: func(in ssa.Instruction) bool {
+					ret, isRet := in.(*ssa.Return)
+					return isRet && !(chk.Recover != nil && ret.Block() == chk.Recover)
+				},
+				EdgeOK: func(b *ssa.BasicBlock, i int) bool {
+					ifi := blockIf(b)
+					if ifi == nil {
+						return true
+					}
+					return relOn(ifi.Cond, i == 0, isState, isHot) != "!=" // the state differs already: nothing to leave
+				},
 			})
-			// (b) a test that the state already differs
-			isState := func(v ssa.Value) bool { return isLoadOf(v, word) }
-			isHot := func(v ssa.Value) bool { c, okc := constInt(v); return okc && c == hotRestartStateVal }
-			for _, fct := range factsAt(ret.Block()) {
-				if relOn(fct.Cond, fct.Truth, isState, isHot) == "!=" {
-					ok = true
-				}
+			where := "from the entry"
+			if st.Idx >= 0 {
+				where = "after wait #" + itoa(int64(si))
 			}
-			r.ob("R16.2", fn+": the checker leaves hotRestartState on every exit", p.ipos(ret), ok, true, "")
+			r.ob("R16.2", fn+": the checker leaves hotRestartState on every exit ("+where+")", p.pos(chk.Pos()), okp, true, "%s", p.pathString(res))
 		}
 		armed := false
 		allInstrs(chk, func(in ssa.Instruction) {
